@@ -1,6 +1,6 @@
 (* Proofs about Model/Hist.v : results depend on current inputs and seeds only, never on the call history (C03). *)
 From Coq Require Import List Arith Bool Lia Ring ZArith.
-From Pymoto Require Import Base.Num Model.Net Model.Hist Proofs.NetP.
+From Pymoto Require Import Base.Num Base.Cmp Model.Net Model.Hist Proofs.NetP.
 Import ListNotations.
 
 Section HistProofs.
@@ -353,31 +353,23 @@ Section HistProofs.
   (* ------------------------------------------------------------------ networks of modules with memory *)
   Variable M : Type.
 
-  (* shape-correct, and the adjoint sends zero seeds to zero (or None) results: for every memory and point *)
-  Definition h_shaped (h : @hmod K M) : Prop :=
-    forallb (wt_ref dims) (h_ins h) = true /\
-    (forall mu xs, map (@length K) (snd (h_resp h mu xs)) = map dims (h_outs h)) /\
-    (forall mu xs ys ws, shapes ws (map dims (h_outs h)) ->
-                         oshapes (h_sens h mu xs ys ws) (map (ref_dim dims) (h_ins h))) /\
-    (forall mu xs ys, Forall2 (fun d n => zeroish n d)
-                              (h_sens h mu xs ys (map (fun o => vzero (dims o)) (h_outs h)))
-                              (map (ref_dim dims) (h_ins h))).
+  Local Notation h_shaped := (@Hist.h_shaped K NK M dims).
+  Local Notation h_memless := (@Hist.h_memless K M).
 
-  Definition h_memless (h : @hmod K M) : Prop := exists f g, memoryless h f g.
-
-  Lemma at_point_shaped st h mu : h_shaped h -> adj_shaped (at_point st h mu) /\ zero_preserving (at_point st h mu).
+  Lemma at_point_shaped st h mu : wt_tan dims st -> h_shaped h ->
+    adj_shaped (at_point st h mu) /\ zero_preserving (at_point st h mu).
   Proof.
-    intros [H1 [H2 [H3 H4]]]. split.
-    - split; [exact H1|]. intros ws Hws. simpl. apply H3. exact Hws.
-    - unfold zero_preserving. simpl. apply H4.
+    intros Hst [H1 [H2 [H3 H4]]]. pose proof (shapes_read dims st (h_ins h) Hst) as Hxs. split.
+    - split; [exact H1|]. intros ws Hws. simpl. apply H3; assumption.
+    - unfold zero_preserving. simpl. apply H4. exact Hxs.
   Qed.
 
-  Lemma at_points_shaped st mods : Forall h_shaped mods -> forall mems,
+  Lemma at_points_shaped st mods : wt_tan dims st -> Forall h_shaped mods -> forall mems,
     Forall adj_shaped (at_points st mods mems) /\ Forall zero_preserving (at_points st mods mems).
   Proof.
-    induction 1 as [|h mods Hh _ IH]; intros mems; [split; constructor|].
+    intros Hst. induction 1 as [|h mods Hh _ IH]; intros mems; [split; constructor|].
     destruct mems as [|mu mems]; [split; constructor|].
-    simpl. destruct (IH mems) as [A B]. destruct (at_point_shaped st h mu Hh) as [C D].
+    simpl. destruct (IH mems) as [A B]. destruct (at_point_shaped st h mu Hst Hh) as [C D].
     split; constructor; assumption.
   Qed.
 
@@ -400,31 +392,18 @@ Section HistProofs.
   (* ---- the states after a response depend on the inputs of the network only *)
   Definition resp_pure (h : @hmod K M) : Prop := forall mu mu' xs, snd (h_resp h mu xs) = snd (h_resp h mu' xs).
 
-  Lemma shaped_arity h : h_shaped h -> forall mu xs, length (snd (h_resp h mu xs)) = length (h_outs h).
+  Lemma read_shapes_local (st : tenv K) ins :
+    (forall r, In r ins -> length (st (ref_sig r)) = dims (ref_sig r)) ->
+    shapes (map (read_t st) ins) (map (ref_dim dims) ins).
   Proof.
-    intros [_ [H2 _]] mu xs. rewrite <- (map_length (@length K)), H2. apply map_length.
+    intros H. unfold shapes. rewrite map_map. apply map_ext_in. intros r Hr.
+    destruct r as [s|s idx|s idx]; simpl; [apply (H (RSig s) Hr) | apply length_gather | apply length_gather].
   Qed.
 
-  Lemma resp_states_inputs_only (mods : list (@hmod K M)) : hwf mods = true -> Forall resp_pure mods -> Forall h_shaped mods ->
-    forall mems1 mems2 (st1 st2 : tenv K), length mems1 = length mods -> length mems2 = length mods ->
-    (forall x, ~ In x (h_written mods) -> st1 x = st2 x) ->
-    forall x, snd (resp_all mods mems1 st1) x = snd (resp_all mods mems2 st2) x.
+  Lemma shaped_arity h : h_shaped h -> forall mu xs, shapes xs (map (ref_dim dims) (h_ins h)) ->
+    length (snd (h_resp h mu xs)) = length (h_outs h).
   Proof.
-    induction mods as [|h mods IH]; intros Hwf Hp Hs mems1 mems2 st1 st2 L1 L2 Hag x.
-    - destruct mems1, mems2; simpl; apply Hag; intros [].
-    - destruct mems1 as [|m1 mems1]; [discriminate|]. destruct mems2 as [|m2 mems2]; [discriminate|].
-      apply hwf_cons in Hwf as [Hnd [Hdis [Hins Hwf]]].
-      inversion Hp as [|? ? Hp1 Hp2]; inversion Hs as [|? ? Hs1 Hs2]; subst.
-      simpl. apply IH; auto.
-      intros y Hy.
-      assert (Hxs : map (read_t st1) (h_ins h) = map (read_t st2) (h_ins h)).
-      { apply map_ext_in. intros r Hr. apply read_t_agree. apply Hag.
-        change (h_written (h :: mods)) with (h_outs h ++ h_written mods). rewrite in_app_iff.
-        destruct (Hins r Hr). tauto. }
-      rewrite Hxs, (Hp1 m1 m2). apply write_outs_agree.
-      rewrite (shaped_arity h Hs1), firstn_all.
-      destruct (in_dec Nat.eq_dec y (h_outs h)) as [Hi|Hi]; [right; exact Hi|].
-      left. apply Hag. change (h_written (h :: mods)) with (h_outs h ++ h_written mods). rewrite in_app_iff. tauto.
+    intros [_ [H2 _]] mu xs Hxs. rewrite <- (map_length (@length K)), (H2 mu xs Hxs). apply map_length.
   Qed.
 
   Lemma write_outs_len outs : forall ys (st : tenv K), map (@length K) ys = map dims outs ->
@@ -442,24 +421,86 @@ Section HistProofs.
       + intros Hn. rewrite B by tauto. apply upd_other. intros ->. apply Hn. left. reflexivity.
   Qed.
 
-  Lemma resp_all_len mods : Forall h_shaped mods -> forall mems (st : tenv K), length mems = length mods ->
+  (* the signals a module reads have been given their shape: inputs of the network, or written before *)
+  Definition lens_ok (mods : list (@hmod K M)) (st : tenv K) : Prop :=
+    forall s, ~ In s (h_written mods) -> length (st s) = dims s.
+
+  Lemma ins_shapes (h : @hmod K M) mods (st : tenv K) :
+    (forall r, In r (h_ins h) -> ~ In (ref_sig r) (h_outs h) /\ ~ In (ref_sig r) (h_written mods)) ->
+    lens_ok (h :: mods) st -> shapes (map (read_t st) (h_ins h)) (map (ref_dim dims) (h_ins h)).
+  Proof.
+    intros Hins Hl. apply read_shapes_local. intros r Hr. apply Hl.
+    change (h_written (h :: mods)) with (h_outs h ++ h_written mods). rewrite in_app_iff.
+    destruct (Hins r Hr). tauto.
+  Qed.
+
+  Lemma lens_ok_step (h : @hmod K M) mods (st : tenv K) ys :
+    map (@length K) ys = map dims (h_outs h) -> lens_ok (h :: mods) st ->
+    lens_ok mods (write_outs (h_outs h) ys st).
+  Proof.
+    intros Hys Hl s Hs. destruct (write_outs_len (h_outs h) ys st Hys s) as [C1 C2].
+    destruct (in_dec Nat.eq_dec s (h_outs h)) as [Hi|Hi]; [apply C1; exact Hi|].
+    rewrite C2 by exact Hi. apply Hl.
+    change (h_written (h :: mods)) with (h_outs h ++ h_written mods). rewrite in_app_iff. tauto.
+  Qed.
+
+  Lemma resp_states_inputs_only (mods : list (@hmod K M)) : hwf mods = true -> Forall resp_pure mods -> Forall h_shaped mods ->
+    forall mems1 mems2 (st1 st2 : tenv K), length mems1 = length mods -> length mems2 = length mods ->
+    lens_ok mods st1 -> (forall x, ~ In x (h_written mods) -> st1 x = st2 x) ->
+    forall x, snd (resp_all mods mems1 st1) x = snd (resp_all mods mems2 st2) x.
+  Proof.
+    induction mods as [|h mods IH]; intros Hwf Hp Hs mems1 mems2 st1 st2 L1 L2 Hl Hag x.
+    - destruct mems1, mems2; simpl; apply Hag; intros [].
+    - destruct mems1 as [|m1 mems1]; [discriminate|]. destruct mems2 as [|m2 mems2]; [discriminate|].
+      apply hwf_cons in Hwf as [Hnd [Hdis [Hins Hwf]]].
+      inversion Hp as [|? ? Hp1 Hp2]; inversion Hs as [|? ? Hs1 Hs2]; subst.
+      pose proof (ins_shapes h mods st1 Hins Hl) as Hxs.
+      assert (Exs : map (read_t st1) (h_ins h) = map (read_t st2) (h_ins h)).
+      { apply map_ext_in. intros r Hr. apply read_t_agree. apply Hag.
+        change (h_written (h :: mods)) with (h_outs h ++ h_written mods). rewrite in_app_iff.
+        destruct (Hins r Hr). tauto. }
+      simpl. apply IH; auto.
+      + apply lens_ok_step; [|exact Hl]. destruct Hs1 as [_ [H2 _]]. apply H2. exact Hxs.
+      + intros y Hy. rewrite <- Exs, (Hp1 m1 m2). apply write_outs_agree.
+        rewrite (shaped_arity h Hs1 m2 _ Hxs), firstn_all.
+        destruct (in_dec Nat.eq_dec y (h_outs h)) as [Hi|Hi]; [right; exact Hi|].
+        left. apply Hag. change (h_written (h :: mods)) with (h_outs h ++ h_written mods). rewrite in_app_iff. tauto.
+  Qed.
+
+  Lemma resp_all_len mods : hwf mods = true -> Forall h_shaped mods -> forall mems (st : tenv K),
+    length mems = length mods -> lens_ok mods st ->
     length (fst (resp_all mods mems st)) = length mods /\
-    forall s, (In s (h_written mods) -> length (snd (resp_all mods mems st) s) = dims s) /\
+    forall s, length (snd (resp_all mods mems st) s) = dims s /\
               (~ In s (h_written mods) -> snd (resp_all mods mems st) s = st s).
   Proof.
-    induction 1 as [|h mods Hh _ IH]; intros mems st L.
-    - destruct mems; [|discriminate]. simpl. split; [reflexivity|]. intros s. split; [intros [] | reflexivity].
-    - destruct mems as [|mu mems]; [discriminate|]. simpl.
-      set (r := h_resp h mu (map (read_t st) (h_ins h))).
-      destruct (IH mems (write_outs (h_outs h) (snd r) st)) as [A B]; [simpl in L; lia|].
+    induction mods as [|h mods IH]; intros Hwf Hs mems st L Hl.
+    - destruct mems; [|discriminate]. simpl. split; [reflexivity|]. intros s. split; [apply Hl; intros [] | reflexivity].
+    - destruct mems as [|mu mems]; [discriminate|].
+      apply hwf_cons in Hwf as [Hnd [Hdis [Hins Hwf]]]. inversion Hs as [|? ? Hs1 Hs2]; subst.
+      pose proof (ins_shapes h mods st Hins Hl) as Hxs.
+      simpl. set (r := h_resp h mu (map (read_t st) (h_ins h))).
+      assert (Hys : map (@length K) (snd r) = map dims (h_outs h)) by (destruct Hs1 as [_ [H2 _]]; apply H2; exact Hxs).
+      destruct (IH Hwf Hs2 mems (write_outs (h_outs h) (snd r) st)) as [A B];
+        [simpl in L; lia | apply lens_ok_step; assumption|].
       split; [simpl; rewrite A; reflexivity|].
-      intros s. destruct (B s) as [B1 B2].
-      destruct Hh as [_ [H2 _]].
-      destruct (write_outs_len (h_outs h) (snd r) st (H2 mu _) s) as [C1 C2].
-      change (h_written (h :: mods)) with (h_outs h ++ h_written mods). rewrite in_app_iff. split.
-      + intros Hin. destruct (in_dec Nat.eq_dec s (h_written mods)) as [Hi|Hi]; [apply B1; exact Hi|].
-        rewrite B2 by exact Hi. apply C1. tauto.
-      + intros Hn. rewrite B2 by tauto. apply C2. tauto.
+      intros s. destruct (B s) as [B1 B2]. split; [exact B1|].
+      change (h_written (h :: mods)) with (h_outs h ++ h_written mods). rewrite in_app_iff.
+      intros Hn. rewrite B2 by tauto. apply (write_outs_len (h_outs h) (snd r) st Hys s). tauto.
+  Qed.
+  Lemma write_outs_untouched outs : forall ys (st : tenv K) s, ~ In s outs -> write_outs outs ys st s = st s.
+  Proof.
+    induction outs as [|o outs IH]; intros ys st s Hn; [reflexivity|].
+    destruct ys as [|y ys]; [reflexivity|]. simpl. rewrite IH by (intros H; apply Hn; right; exact H).
+    apply upd_other. intros ->. apply Hn. left. reflexivity.
+  Qed.
+
+  Lemma resp_all_unwritten (mods : list (@hmod K M)) : forall mems (st : tenv K) s,
+    ~ In s (h_written mods) -> snd (resp_all mods mems st) s = st s.
+  Proof.
+    induction mods as [|h mods IH]; intros mems st s Hn; [destruct mems; reflexivity|].
+    destruct mems as [|mu mems]; [reflexivity|]. simpl.
+    change (h_written (h :: mods)) with (h_outs h ++ h_written mods) in Hn. rewrite in_app_iff in Hn.
+    rewrite IH by tauto. apply write_outs_untouched. tauto.
   Qed.
 
   (* ------------------------------------------------------------------ what Network.reset reaches *)
@@ -582,20 +623,18 @@ Section HistProofs.
     rewrite bwd_cons. apply bwd_mod_wt; auto.
   Qed.
 
-  Lemma inv_step (mods : list hmodK) x o : Forall h_shaped mods -> inv mods x -> admissible mods x o ->
+  Lemma inv_step (mods : list hmodK) x o : hwf mods = true -> Forall h_shaped mods -> inv mods x -> admissible mods x o ->
     inv mods (step keep mods x o).
   Proof.
-    intros Hs [I0 [I1 [I2 [I3 I4]]]] Ha. unfold inv.
+    intros Hwf Hs [I0 [I1 [I2 [I3 I4]]]] Ha. unfold inv.
     destruct o as [s v| |s w| |]; cbn [step admissible s_st s_se s_mem s_fresh] in *.
     - destruct Ha as [Hw Hl]. split; [exact I0|]. split; [|split; [discriminate|split; assumption]].
       intros s' Hs'. unfold upd. destruct (Nat.eqb s' s) eqn:E; [|apply I1; exact Hs'].
       apply Nat.eqb_eq in E. subst. rewrite Hl. apply I1. exact Hw.
-    - destruct (resp_all_len mods Hs (s_mem x) (s_st x) I0) as [A B].
+    - destruct (resp_all_len mods Hwf Hs (s_mem x) (s_st x) I0 I1) as [A B].
       split; [exact A|]. split; [|split; [|split; assumption]].
-      + intros s Hn. destruct (B s) as [_ B2]. rewrite B2 by exact Hn. apply I1. exact Hn.
-      + intros _ s. destruct (B s) as [B1 B2].
-        destruct (in_dec Nat.eq_dec s (h_written mods)) as [Hi|Hi]; [apply B1; exact Hi|].
-        rewrite B2 by exact Hi. apply I1. exact Hi.
+      + intros s Hn. apply B.
+      + intros _ s. apply B.
     - destruct Ha as [Hd [Hl Hf]]. split; [exact I0|]. split; [exact I1|]. split; [exact I2|]. split.
       + intros s' g. unfold upd. destruct (Nat.eqb s' s) eqn:E; [|apply I3].
         apply Nat.eqb_eq in E. subst. intros [= <-]. rewrite Hl. apply I2. exact Hf.
@@ -605,7 +644,7 @@ Section HistProofs.
       + unfold sens_all. intros s g E.
         rewrite (bwd_congr (sdims (s_st x)) dims _ _ (fun s0 => I2 Ha s0) (mod_ext_refl _) (s_se x) (s_se x)
                            (fun _ => eq_refl) s) in E.
-        revert s g E. apply bwd_shaped_wt; [|exact I3]. apply at_points_shaped. exact Hs.
+        revert s g E. apply bwd_shaped_wt; [|exact I3]. apply at_points_shaped; [exact (I2 Ha) | exact Hs].
       + unfold sens_all. apply bwd_cov; [|exact I4].
         intros m r Hm Hr. destruct (at_points_In _ _ _ _ Hm) as [h [mu [Hh ->]]]. simpl in Hr.
         apply (ins_in_net_refs mods h r Hh Hr).
@@ -626,10 +665,10 @@ Section HistProofs.
     - intros s g. destruct (keep s); [|discriminate]. intros [= <-]. right. intros k. right. apply nth_vzero.
   Qed.
 
-  Lemma inv_run (mods : list hmodK) : Forall h_shaped mods -> forall ops x,
+  Lemma inv_run (mods : list hmodK) : hwf mods = true -> Forall h_shaped mods -> forall ops x,
     inv mods x -> admissible_run keep mods ops x -> inv mods (run keep mods ops x).
   Proof.
-    intros Hs. induction ops as [|o ops IH]; intros x Hi Ha; [exact Hi|].
+    intros Hwf Hs. induction ops as [|o ops IH]; intros x Hi Ha; [exact Hi|].
     destruct Ha as [A B]. simpl. apply IH; [apply inv_step; assumption | exact B].
   Qed.
 
@@ -681,8 +720,7 @@ Section HistProofs.
     simpl. apply IH. intros y. unfold upd. destruct (Nat.eqb y (fst sw)); [left; reflexivity | apply H].
   Qed.
 
-  Definition seeds_shaped (seeds : list (nat * vec K)) : Prop :=
-    Forall (fun sw => length (snd sw) = dims (fst sw)) seeds.
+  Local Notation seeds_shaped := (@Hist.seeds_shaped K dims).
 
   Lemma seed_env_wt seeds : seeds_shaped seeds -> forall c : cenv K, wt_cot dims c -> wt_cot dims (seed_env seeds c).
   Proof.
@@ -726,8 +764,8 @@ Section HistProofs.
     unfold fresh_cycle. change ([OResp] ++ seed_ops seeds ++ [OSens]) with (OResp :: (seed_ops seeds ++ [OSens])).
     rewrite !run_cons, !run_app.
     set (x1 := step keep mods x OResp). set (y1 := step keep mods y0 OResp).
-    assert (Hi1 : inv mods x1) by (apply inv_step; [exact Hs | exact Hi | exact I]).
-    assert (Hiy1 : inv mods y1) by (apply inv_step; [exact Hs | exact Hiy | exact I]).
+    assert (Hi1 : inv mods x1) by (apply inv_step; [exact Hwf | exact Hs | exact Hi | exact I]).
+    assert (Hiy1 : inv mods y1) by (apply inv_step; [exact Hwf | exact Hs | exact Hiy | exact I]).
     destruct (run_seed_ops mods seeds x1) as [A1 [B1 [C1 D1]]].
     destruct (run_seed_ops mods seeds y1) as [A2 [B2 [C2 D2]]].
     cbn [run fold_left step s_st s_se s_mem s_fresh].
@@ -736,9 +774,13 @@ Section HistProofs.
     (* states *)
     assert (S : forall s, s_st x1 s = s_st y1 s).
     { intros s. unfold x1, y1. cbn [step s_st].
-      apply resp_states_inputs_only; auto.
+      apply resp_states_inputs_only.
+      - exact Hwf.
       - apply Forall_impl with (2 := Hm). apply memless_resp_pure.
+      - exact Hs.
       - apply Hi.
+      - exact L0.
+      - exact (proj1 (proj2 Hi)).
       - intros z Hz'. unfold y0, fresh. cbn [s_st]. apply mem_false in Hz'. rewrite Hz'. reflexivity. }
     split; [exact S|].
     (* sensitivities *)
@@ -755,7 +797,7 @@ Section HistProofs.
     assert (Ey : forall s, sens_all mods (s_mem y1) (s_st y1) c2 s = bwd dims P c2 s).
     { intros s. unfold sens_all. apply bwd_congr; [exact Dy | | reflexivity].
       apply at_points_ext; auto. }
-    destruct (at_points_shaped (s_st x1) mods Hs (s_mem x1)) as [PA PZ].
+    destruct (at_points_shaped (s_st x1) mods Dx Hs (s_mem x1)) as [PA PZ].
     assert (W1 : wt_cot dims c1) by (apply seed_env_wt; [exact Hsd | apply Hi1]).
     assert (W2 : wt_cot dims c2) by (apply seed_env_wt; [exact Hsd | apply Hiy1]).
     assert (R : forall s, rel (c1 s) (c2 s) (dims s)).
@@ -766,8 +808,6 @@ Section HistProofs.
   Qed.
 
   (* ------------------------------------------------------------------ any history, then the final cycle *)
-  Definition only_sets (ops : list (@op K)) : Prop := Forall (fun o => exists s v, o = OSet s v) ops.
-
   Lemma run_sets_se (mods : list hmodK) ops : only_sets ops -> forall x, s_se (run keep mods ops x) = s_se x.
   Proof.
     induction 1 as [|o ops [s [v ->]] _ IH]; intros x; [reflexivity|].
@@ -786,12 +826,12 @@ Section HistProofs.
   Proof.
     intros Hwf Hs Hm L0 Hin Hsets Hsd Hadm. cbv zeta.
     apply cycle_from_clean; auto.
-    - apply inv_run; [exact Hs | apply inv_fresh; assumption | exact Hadm].
+    - apply inv_run; [exact Hwf | exact Hs | apply inv_fresh; assumption | exact Hadm].
     - intros s. rewrite app_assoc, run_app, (run_sets_se mods sets Hsets), run_app.
       apply reset_clears.
       rewrite app_assoc in Hadm. apply admissible_run_app in Hadm as [Hadm _].
       apply admissible_run_app in Hadm as [Hadm _].
-      apply inv_run; [exact Hs | apply inv_fresh; assumption | exact Hadm].
+      apply inv_run; [exact Hwf | exact Hs | apply inv_fresh; assumption | exact Hadm].
   Qed.
 
   (* ------------------------------------------------------------------ sensitivity() without any seed *)
@@ -836,24 +876,43 @@ Section HistProofs.
     assert (D : forall s0, sdims (s_st x) s0 = dims s0) by (destruct Hi as [_ [_ [I2 _]]]; apply I2; exact Hf).
     unfold sens_all.
     rewrite (bwd_congr (sdims (s_st x)) dims _ _ D (mod_ext_refl _) (s_se x) (s_se x) (fun _ => eq_refl) s).
-    destruct (at_points_shaped (s_st x) mods Hs (s_mem x)) as [PA PZ].
+    destruct (at_points_shaped (s_st x) mods D Hs (s_mem x)) as [PA PZ].
     apply bwd_zeroish; auto. apply Hi.
   Qed.
 
+  (* ---- the same two facts for the states an admissible history can reach *)
+  Theorem reset_clears_after_history (mods : list hmodK) mem0 (inputs0 : tenv K) hist :
+    hwf mods = true -> Forall h_shaped mods -> length mem0 = length mods ->
+    (forall s, ~ In s (h_written mods) -> length (inputs0 s) = dims s) ->
+    admissible_run keep mods hist (fresh dims keep mods mem0 inputs0) ->
+    forall s, zeroish (dims s) (s_se (run keep mods (hist ++ [OReset]) (fresh dims keep mods mem0 inputs0)) s).
+  Proof.
+    intros Hwf Hs L Hin Ha s. rewrite run_app. apply reset_clears.
+    apply inv_run; auto. apply inv_fresh; assumption.
+  Qed.
+
+  Theorem unseeded_cycle_stays_clean (mods : list hmodK) mem0 (inputs0 : tenv K) hist sets :
+    hwf mods = true -> Forall h_shaped mods -> length mem0 = length mods ->
+    (forall s, ~ In s (h_written mods) -> length (inputs0 s) = dims s) -> only_sets sets ->
+    admissible_run keep mods (hist ++ [OReset] ++ sets) (fresh dims keep mods mem0 inputs0) ->
+    forall s, zeroish (dims s)
+                (s_se (run keep mods ((hist ++ [OReset] ++ sets) ++ [OResp; OSens]) (fresh dims keep mods mem0 inputs0)) s).
+  Proof.
+    intros Hwf Hs L Hin Hsets Ha s.
+    rewrite run_app. set (x := run keep mods (hist ++ [OReset] ++ sets) (fresh dims keep mods mem0 inputs0)).
+    assert (Hi : inv mods x) by (apply inv_run; auto; apply inv_fresh; assumption).
+    assert (Hz : forall s0, zeroish (dims s0) (s_se x s0)).
+    { intros s0. unfold x. rewrite app_assoc, run_app, (run_sets_se mods sets Hsets).
+      rewrite app_assoc in Ha. apply admissible_run_app in Ha as [Ha _]. apply admissible_run_app in Ha as [Ha _].
+      apply reset_clears_after_history; auto. }
+    change (run keep mods [OResp; OSens] x) with (step keep mods (step keep mods x OResp) OSens).
+    apply clean_sensitivity_stays_clean; auto.
+    apply inv_step; auto. exact I.
+  Qed.
+
   (* ------------------------------------------------------------------ caching modules: `Good mem inputs` *)
-  Record cspec : Type := {
-    c_mu0 : M;
-    c_good : M -> option (list (vec K)) -> Prop;
-    c_f : list (vec K) -> list (vec K);
-    c_g : list (vec K) -> list (vec K) -> list (vec K) -> list (option (vec K))
-  }.
-  Definition cc (h : hmodK) (sp : cspec) : Prop := cache_correct h (c_mu0 sp) (c_good sp) (c_f sp) (c_g sp).
-  Definition pure_h (h : hmodK) (sp : cspec) : hmodK := pure_of h (c_f sp) (c_g sp).
-  Fixpoint pures (mods : list hmodK) (specs : list cspec) : list hmodK :=
-    match mods, specs with
-    | h :: mods', sp :: specs' => pure_h h sp :: pures mods' specs'
-    | _, _ => []
-    end.
+  Local Notation cspec := (@Hist.cspec K M).
+  Local Notation cc := (@Hist.cc K M).
 
   (* every memory is Good for the inputs of the latest response; directly after a response (fr = true) these are
      the current input states and the current output states are f of them *)
@@ -868,14 +927,14 @@ Section HistProofs.
     | _, _, _ => False
     end.
 
-  Lemma good_all_weaken st st' mods : forall specs mems, good_all st true mods specs mems \/ good_all st false mods specs mems ->
+  Lemma good_all_weaken st st' (mods : list hmodK) : forall specs mems, good_all st true mods specs mems \/ good_all st false mods specs mems ->
     good_all st' false mods specs mems.
   Proof.
     induction mods as [|h mods IH]; intros [|sp specs] [|mu mems] H; simpl in *; try tauto; try (destruct H; tauto).
     destruct H as [[[last [G _]] H]|[[last [G _]] H]]; (split; [exists last; split; [exact G | discriminate] | apply IH; auto]).
   Qed.
 
-  Lemma good_all_ext st st' fr mods : (forall s, st s = st' s) -> forall specs mems,
+  Lemma good_all_ext st st' fr (mods : list hmodK) : (forall s, st s = st' s) -> forall specs mems,
     good_all st fr mods specs mems -> good_all st' fr mods specs mems.
   Proof.
     intros E. induction mods as [|h mods IH]; intros [|sp specs] [|mu mems] H; simpl in *; try tauto.
@@ -885,19 +944,19 @@ Section HistProofs.
     rewrite <- (map_ext st st' E). split; assumption.
   Qed.
 
-  Lemma good_all_len st fr mods : forall specs mems, good_all st fr mods specs mems -> length mems = length mods.
+  Lemma good_all_len st fr (mods : list hmodK) : forall specs mems, good_all st fr mods specs mems -> length mems = length mods.
   Proof.
     induction mods as [|h mods IH]; intros [|sp specs] [|mu mems] H; simpl in *; try tauto.
     destruct H as [_ H]. rewrite (IH _ _ H). reflexivity.
   Qed.
 
-  Lemma pures_written mods : forall specs, length specs = length mods -> h_written (pures mods specs) = h_written mods.
+  Lemma pures_written (mods : list hmodK) : forall specs, length specs = length mods -> h_written (pures mods specs) = h_written mods.
   Proof.
     induction mods as [|h mods IH]; intros [|sp specs] L; try discriminate; [reflexivity|].
     simpl. unfold h_written in *. simpl. rewrite IH by (simpl in L; lia). reflexivity.
   Qed.
 
-  Lemma pures_refs mods : forall specs, length specs = length mods ->
+  Lemma pures_refs (mods : list hmodK) : forall specs, length specs = length mods ->
     map mod_refs (pures mods specs) = map mod_refs mods.
   Proof.
     induction mods as [|h mods IH]; intros [|sp specs] L; try discriminate; [reflexivity|].
@@ -940,19 +999,19 @@ Section HistProofs.
 
   (* one response of the whole network: the network with memory and its memoryless counterpart stay together *)
   Lemma resp_sim (mods : list hmodK) : forall specs mems memsp (st stp : tenv K),
-    hwf mods = true -> Forall h_shaped mods -> Forall2 cc mods specs ->
-    good_all st false mods specs mems -> length memsp = length mods -> (forall s, st s = stp s) ->
+    hwf mods = true -> Forall h_shaped (pures mods specs) -> Forall2 cc mods specs ->
+    good_all st false mods specs mems -> length memsp = length mods -> lens_ok mods st -> (forall s, st s = stp s) ->
     (forall s, snd (resp_all mods mems st) s = snd (resp_all (pures mods specs) memsp stp) s) /\
     good_all (snd (resp_all mods mems st)) true mods specs (fst (resp_all mods mems st)) /\
     length (fst (resp_all (pures mods specs) memsp stp)) = length mods.
   Proof.
-    induction mods as [|h mods IH]; intros specs mems memsp st stp Hwf Hs Hcc Hg Lp E.
+    induction mods as [|h mods IH]; intros specs mems memsp st stp Hwf Hs Hcc Hg Lp Hl E.
     - inversion Hcc; subst. destruct mems; [|contradiction]. destruct memsp; [|discriminate].
       simpl. auto.
     - inversion Hcc as [|? sp ? specs' Hc Hcc']; subst.
       destruct mems as [|mu mems]; [contradiction|]. destruct memsp as [|mup memsp]; [discriminate|].
       apply hwf_cons in Hwf as [Hnd [Hdis [Hins Hwf]]].
-      inversion Hs as [|? ? Hs1 Hs2]; subst.
+      cbn [pures] in Hs. inversion Hs as [|? ? Hs1 Hs2]; subst.
       destruct Hg as [[last [G _]] Hg].
       destruct Hc as [_ [Hresp Hsens]].
       set (xs := map (read_t st) (h_ins h)).
@@ -965,17 +1024,18 @@ Section HistProofs.
       assert (E1 : forall s, st1 s = stp1 s).
       { intros s. unfold st1, stp1. apply write_outs_agree. left. apply E. }
       assert (Hg1 : good_all st1 false mods specs' mems) by (apply (good_all_weaken st); right; exact Hg).
-      destruct (IH specs' mems memsp st1 stp1 Hwf Hs2 Hcc' Hg1 ltac:(simpl in Lp; lia) E1) as [A [B C]].
+      assert (Hys : map (@length K) (c_f sp xs) = map dims (h_outs h)).
+      { destruct Hs1 as [_ [H2 _]]. apply (H2 mu xs). apply (ins_shapes h mods st Hins Hl). }
+      assert (Hl1 : lens_ok mods st1) by (apply lens_ok_step; assumption).
+      destruct (IH specs' mems memsp st1 stp1 Hwf Hs2 Hcc' Hg1 ltac:(simpl in Lp; lia) Hl1 E1) as [A [B C]].
       split; [exact A|]. split; [|simpl; rewrite C; reflexivity].
       cbn [good_all]. split; [|exact B].
       exists (Some xs). split; [exact G'|]. intros _.
-      destruct (resp_all_len mods Hs2 mems st1 (good_all_len _ _ _ _ _ Hg)) as [_ U].
+      pose proof (fun s => resp_all_unwritten mods mems st1 s) as U.
       set (stf := snd (resp_all mods mems st1)) in *.
-      assert (Hys : map (@length K) (c_f sp xs) = map dims (h_outs h)).
-      { rewrite <- Ef. destruct Hs1 as [_ [H2 _]]. apply H2. }
       assert (Hxs : map (read_t stf) (h_ins h) = xs).
       { unfold xs. apply map_ext_in. intros r Hr. apply read_t_agree.
-        destruct (Hins r Hr) as [N1 N2]. destruct (U (ref_sig r)) as [_ U2]. rewrite U2 by exact N2.
+        destruct (Hins r Hr) as [N1 N2]. rewrite (U (ref_sig r)) by exact N2.
         unfold st1. apply (write_outs_len (h_outs h) (c_f sp xs) st Hys (ref_sig r)). exact N1. }
       rewrite Hxs. split; [reflexivity|].
       rewrite (map_ext_in stf st1) by (intros o Ho; apply (U o); apply Hdis; exact Ho).
@@ -985,7 +1045,8 @@ Section HistProofs.
 
   Definition sim (mods : list hmodK) (specs : list cspec) (x p : nst M) : Prop :=
     (forall s, s_st x s = s_st p s) /\ (forall s, s_se x s = s_se p s) /\ s_fresh x = s_fresh p /\
-    length (s_mem p) = length mods /\ good_all (s_st x) (s_fresh x) mods specs (s_mem x).
+    length (s_mem p) = length mods /\ good_all (s_st x) (s_fresh x) mods specs (s_mem x) /\
+    lens_ok mods (s_st x).
 
   Lemma at_points_sim (mods : list hmodK) : forall specs mems memsp (stx stp : tenv K),
     Forall2 cc mods specs -> good_all stx true mods specs mems -> length memsp = length mods ->
@@ -1009,58 +1070,69 @@ Section HistProofs.
   Proof. induction 1; simpl; auto. Qed.
 
   Lemma sim_step (mods : list hmodK) specs x p o :
-    hwf mods = true -> Forall h_shaped mods -> Forall2 cc mods specs -> sim mods specs x p ->
-    (o = OSens -> s_fresh x = true) ->
+    hwf mods = true -> Forall h_shaped (pures mods specs) -> Forall2 cc mods specs -> sim mods specs x p ->
+    (o = OSens -> s_fresh x = true) -> (forall s v, o = OSet s v -> length v = dims s) ->
     sim mods specs (step keep mods x o) (step keep (pures mods specs) p o).
   Proof.
-    intros Hwf Hs Hcc [S1 [S2 [S3 [S4 S5]]]] Hf. unfold sim.
+    intros Hwf Hs Hcc [S1 [S2 [S3 [S4 [S5 S6]]]]] Hf Hv. unfold sim.
     destruct o as [s v| |s w| |]; cbn [step s_st s_se s_mem s_fresh].
-    - split; [|split; [exact S2|split; [reflexivity|split; [exact S4|]]]].
+    - split; [|split; [exact S2|split; [reflexivity|split; [exact S4|split]]]].
       + intros s'. unfold upd. destruct (Nat.eqb s' s); [reflexivity | apply S1].
       + apply (good_all_weaken (s_st x)). destruct (s_fresh x); [left | right]; exact S5.
+      + intros s' Hs'. unfold upd. destruct (Nat.eqb s' s) eqn:E; [|apply S6; exact Hs'].
+        apply Nat.eqb_eq in E. subst s'. apply (Hv s v eq_refl).
     - assert (G0 : good_all (s_st x) false mods specs (s_mem x)).
       { apply (good_all_weaken (s_st x)). destruct (s_fresh x); [left | right]; exact S5. }
-      destruct (resp_sim mods specs (s_mem x) (s_mem p) (s_st x) (s_st p) Hwf Hs Hcc G0 S4 S1) as [A [B C]].
-      split; [exact A|]. split; [exact S2|]. split; [reflexivity|]. split; [exact C | exact B].
-    - split; [exact S1|]. split; [|split; [exact S3|split; [exact S4 | exact S5]]].
+      destruct (resp_sim mods specs (s_mem x) (s_mem p) (s_st x) (s_st p) Hwf Hs Hcc G0 S4 S6 S1) as [A [B C]].
+      split; [exact A|]. split; [exact S2|]. split; [reflexivity|]. split; [exact C|]. split; [exact B|].
+      intros s Hn. rewrite resp_all_unwritten by exact Hn. apply S6. exact Hn.
+    - split; [exact S1|]. split; [|split; [exact S3|split; [exact S4 | split; [exact S5 | exact S6]]]].
       intros s'. unfold upd. destruct (Nat.eqb s' s); [reflexivity | apply S2].
-    - split; [exact S1|]. split; [|split; [exact S3|split; [exact S4 | exact S5]]].
+    - split; [exact S1|]. split; [|split; [exact S3|split; [exact S4 | split; [exact S5 | exact S6]]]].
       intros s. unfold sens_all. apply bwd_congr; [| |exact S2].
       + intros s0. unfold sdims. rewrite S1. reflexivity.
       + apply at_points_sim; auto. rewrite (Hf eq_refl) in S5. exact S5.
-    - split; [exact S1|]. split; [|split; [exact S3|split; [exact S4 | exact S5]]].
+    - split; [exact S1|]. split; [|split; [exact S3|split; [exact S4 | split; [exact S5 | exact S6]]]].
       intros s. unfold reset_all.
       rewrite (net_refs_map (pures mods specs) mods (pures_refs mods specs (cc_length _ _ Hcc))).
       apply reset_refs_congr. exact S2.
   Qed.
 
-  (* the protocol bit that matters here: sensitivity() only directly after a response() *)
-  Fixpoint fresh_ok (fr : bool) (ops : list (@op K)) : bool :=
+  (* the part of the protocol that matters here: sensitivity() only directly after a response(),
+     inputs keep their shape *)
+  Fixpoint proto_ok (fr : bool) (ops : list (@op K)) : Prop :=
     match ops with
-    | [] => true
-    | OSet _ _ :: r => fresh_ok false r
-    | OResp :: r => fresh_ok true r
-    | OSens :: r => fr && fresh_ok fr r
-    | _ :: r => fresh_ok fr r
+    | [] => True
+    | OSet s v :: r => length v = dims s /\ proto_ok false r
+    | OResp :: r => proto_ok true r
+    | OSens :: r => fr = true /\ proto_ok fr r
+    | _ :: r => proto_ok fr r
     end.
 
-  Lemma admissible_fresh_ok (mods : list hmodK) ops : forall x,
-    admissible_run keep mods ops x -> fresh_ok (s_fresh x) ops = true.
+  Lemma admissible_proto_ok (mods : list hmodK) : hwf mods = true -> Forall h_shaped mods -> forall ops x,
+    inv mods x -> admissible_run keep mods ops x -> proto_ok (s_fresh x) ops.
   Proof.
-    induction ops as [|o ops IH]; intros x Ha; [reflexivity|].
-    destruct Ha as [A B]. specialize (IH _ B).
-    destruct o; cbn [fresh_ok step s_fresh] in *; auto. simpl in A. rewrite A in *. exact IH.
+    intros Hwf Hs. induction ops as [|o ops IH]; intros x Hi Ha; [exact I|].
+    destruct Ha as [A B]. pose proof (IH _ (inv_step mods x o Hwf Hs Hi A) B) as P.
+    destruct o as [s v| |s w| |]; cbn [proto_ok step s_fresh admissible] in *.
+    - destruct A as [Hw Hl]. split; [|exact P]. rewrite Hl. apply (proj1 (proj2 Hi)). exact Hw.
+    - exact P.
+    - exact P.
+    - split; [exact A | exact P].
+    - exact P.
   Qed.
 
   Theorem cache_network_behaves_pure (mods : list hmodK) specs :
-    hwf mods = true -> Forall h_shaped mods -> Forall2 cc mods specs ->
-    forall ops x p, sim mods specs x p -> fresh_ok (s_fresh x) ops = true ->
+    hwf mods = true -> Forall h_shaped (pures mods specs) -> Forall2 cc mods specs ->
+    forall ops x p, sim mods specs x p -> proto_ok (s_fresh x) ops ->
     sim mods specs (run keep mods ops x) (run keep (pures mods specs) ops p).
   Proof.
     intros Hwf Hs Hcc. induction ops as [|o ops IH]; intros x p Hsim Hf; [exact Hsim|].
     rewrite !run_cons. apply IH.
-    - apply sim_step; auto. intros ->. simpl in Hf. apply andb_true_iff in Hf. tauto.
-    - destruct o; cbn [fresh_ok step s_fresh] in *; auto. apply andb_true_iff in Hf. tauto.
+    - apply sim_step; auto.
+      + intros ->. simpl in Hf. tauto.
+      + intros s v ->. simpl in Hf. tauto.
+    - destruct o; cbn [proto_ok step s_fresh] in *; tauto.
   Qed.
 
   Lemma good_all_init st (mods : list hmodK) : forall specs, Forall2 cc mods specs ->
@@ -1073,13 +1145,15 @@ Section HistProofs.
 
   Lemma sim_fresh (mods : list hmodK) specs memp (i1 i2 : tenv K) :
     Forall2 cc mods specs -> length memp = length mods -> (forall s, i1 s = i2 s) ->
+    (forall s, ~ In s (h_written mods) -> length (i1 s) = dims s) ->
     sim mods specs (fresh dims keep mods (map c_mu0 specs) i1) (fresh dims keep (pures mods specs) memp i2).
   Proof.
-    intros Hcc L E. unfold sim, fresh. cbn [s_st s_se s_mem s_fresh].
+    intros Hcc L E Hl. unfold sim, fresh. cbn [s_st s_se s_mem s_fresh].
     rewrite (pures_written mods specs (cc_length _ _ Hcc)).
     split; [intros s; destruct (mem s (h_written mods)); [reflexivity | apply E]|].
     split; [reflexivity|]. split; [reflexivity|]. split; [exact L|].
-    apply good_all_init. exact Hcc.
+    split; [apply good_all_init; exact Hcc|].
+    intros s Hs. pose proof Hs as Hs'. apply mem_false in Hs. rewrite Hs. apply Hl. exact Hs'.
   Qed.
 
   Lemma pures_shell (mods : list hmodK) : forall specs, length specs = length mods ->
@@ -1112,24 +1186,30 @@ Section HistProofs.
     - rewrite <- S3. exact Ha.
   Qed.
 
-  Lemma admissible_run_sim (mods : list hmodK) specs : hwf mods = true -> Forall h_shaped mods -> Forall2 cc mods specs ->
+  Lemma admissible_run_sim (mods : list hmodK) specs : hwf mods = true -> Forall h_shaped (pures mods specs) ->
+    Forall2 cc mods specs ->
     forall ops x p, sim mods specs x p -> admissible_run keep mods ops x ->
-    admissible_run keep (pures mods specs) ops p.
+    proto_ok (s_fresh x) ops /\ admissible_run keep (pures mods specs) ops p.
   Proof.
-    intros Hwf Hs Hcc. induction ops as [|o ops IH]; intros x p Hsim Ha; [exact I|].
-    destruct Ha as [A B]. split; [eapply admissible_sim; eassumption|].
-    apply (IH (step keep mods x o)); [|exact B].
-    apply sim_step; auto. intros ->. exact A.
+    intros Hwf Hs Hcc. induction ops as [|o ops IH]; intros x p Hsim Ha; [split; exact I|].
+    destruct Ha as [A B].
+    assert (Hf : o = OSens -> s_fresh x = true) by (intros ->; exact A).
+    assert (Hv : forall s v, o = OSet s v -> length v = dims s).
+    { intros s v ->. destruct A as [Hw Hl]. rewrite Hl. destruct Hsim as [_ [_ [_ [_ [_ S6]]]]]. apply S6. exact Hw. }
+    destruct (IH (step keep mods x o) (step keep (pures mods specs) p o)
+                 (sim_step mods specs x p o Hwf Hs Hcc Hsim Hf Hv) B) as [P Q].
+    split; [|split; [eapply admissible_sim; eassumption | exact Q]].
+    destruct o as [s v| |s w| |]; cbn [proto_ok step s_fresh] in *; auto.
   Qed.
 
-  Lemma fresh_ok_cycle seeds fr : fresh_ok fr (fresh_cycle seeds) = true.
+  Lemma proto_ok_cycle seeds fr : proto_ok fr (fresh_cycle seeds).
   Proof.
-    unfold fresh_cycle. cbn [app fresh_ok]. induction seeds as [|sw seeds IH]; [reflexivity | exact IH].
+    unfold fresh_cycle. cbn [app proto_ok]. induction seeds as [|sw seeds IH]; [simpl; auto | exact IH].
   Qed.
 
   (* networks of cache-correct modules are history independent as well *)
   Theorem cache_history_independent (mods : list hmodK) specs (inputs0 : tenv K) hist sets seeds :
-    hwf mods = true -> Forall h_shaped mods -> Forall2 cc mods specs -> Forall h_shaped (pures mods specs) ->
+    hwf mods = true -> Forall2 cc mods specs -> Forall h_shaped (pures mods specs) ->
     (forall s, ~ In s (h_written mods) -> length (inputs0 s) = dims s) ->
     only_sets sets -> seeds_shaped seeds ->
     admissible_run keep mods (hist ++ [OReset] ++ sets) (fresh dims keep mods (map c_mu0 specs) inputs0) ->
@@ -1138,7 +1218,7 @@ Section HistProofs.
     let yf := run keep mods (fresh_cycle seeds) (fresh dims keep mods (map c_mu0 specs) (s_st xh)) in
     (forall s, s_st xf s = s_st yf s) /\ ceq dims (s_se xf) (s_se yf).
   Proof.
-    intros Hwf Hs Hcc Hsp Hin Hsets Hsd Hadm. cbv zeta.
+    intros Hwf Hcc Hsp Hin Hsets Hsd Hadm. cbv zeta.
     pose proof (cc_length _ _ Hcc) as L.
     set (P := pures mods specs). set (mem0 := map c_mu0 specs).
     set (ops := hist ++ [OReset] ++ sets).
@@ -1146,19 +1226,20 @@ Section HistProofs.
     assert (LP : length mem0 = length P) by (unfold P; rewrite pures_length; assumption).
     set (x0 := fresh dims keep mods mem0 inputs0). set (p0 := fresh dims keep P mem0 inputs0).
     assert (S0 : sim mods specs x0 p0) by (apply sim_fresh; auto).
+    destruct (admissible_run_sim mods specs Hwf Hsp Hcc ops x0 p0 S0 Hadm) as [Pr AdmP].
     assert (Sh : sim mods specs (run keep mods ops x0) (run keep P ops p0)).
-    { apply cache_network_behaves_pure; auto. apply (admissible_fresh_ok mods ops x0 Hadm). }
+    { apply cache_network_behaves_pure; auto. }
     set (xh := run keep mods ops x0) in *. set (ph := run keep P ops p0) in *.
     assert (Sf : sim mods specs (run keep mods (fresh_cycle seeds) xh) (run keep P (fresh_cycle seeds) ph)).
-    { apply cache_network_behaves_pure; auto. apply fresh_ok_cycle. }
+    { apply cache_network_behaves_pure; auto. apply proto_ok_cycle. }
     assert (Sy : sim mods specs (run keep mods (fresh_cycle seeds) (fresh dims keep mods mem0 (s_st xh)))
                                 (run keep P (fresh_cycle seeds) (fresh dims keep P mem0 (s_st ph)))).
-    { apply cache_network_behaves_pure; auto; [|apply fresh_ok_cycle]. apply sim_fresh; auto. apply Sh. }
+    { apply cache_network_behaves_pure; auto; [|apply proto_ok_cycle]. apply sim_fresh; auto; apply Sh. }
     assert (HP : hwf P = true) by (unfold hwf, P; rewrite pures_shell by exact L; exact Hwf).
     assert (HinP : forall s, ~ In s (h_written P) -> length (inputs0 s) = dims s).
     { unfold P. rewrite pures_written by exact L. exact Hin. }
-    destruct (history_independent P mem0 inputs0 hist sets seeds HP Hsp (pures_memless mods specs) LP HinP Hsets Hsd
-                                  (admissible_run_sim mods specs Hwf Hs Hcc ops x0 p0 S0 Hadm)) as [A B].
+    destruct (history_independent P mem0 inputs0 hist sets seeds HP Hsp (pures_memless mods specs) LP HinP Hsets Hsd AdmP)
+      as [A B].
     fold ops p0 ph in A, B.
     destruct Sf as [F1 [F2 _]]. destruct Sy as [Y1 [Y2 _]].
     split.
@@ -1166,3 +1247,317 @@ Section HistProofs.
     - intros s. rewrite F2, Y2. apply B.
   Qed.
 End HistProofs.
+
+(* ====================================================================================================
+   The caching modules of /repo satisfy the `Good mem inputs` discipline *)
+Section LinSolveProofs.
+  Context {K : Type} `{NK : Num K}.
+  Variable solve : list K -> list K -> option (list K) -> list K.
+  Variable solveT : list K -> list K -> list K.
+  Variable outer_neg : list K -> list K -> list K.
+
+  (* an exact solver of a regular matrix does not depend on its initial guess *)
+  Section ExactSolver.
+    Variable mulA : list K -> list K -> list K.
+    Variable regular : list K -> Prop.
+    Hypothesis solve_exact : forall A b x0, regular A -> mulA A (solve A b x0) = b.
+    Hypothesis regular_inj : forall A x y, regular A -> mulA A x = mulA A y -> x = y.
+    Lemma exact_solver_ignores_guess A b x0 : regular A -> solve A b x0 = solve A b None.
+    Proof. intros R. apply (regular_inj A); [exact R|]. rewrite !solve_exact by exact R. reflexivity. Qed.
+  End ExactSolver.
+
+  Hypothesis solve_ignores_guess : forall A b x0, solve A b x0 = solve A b None.
+
+  Theorem linsolve_cache_correct ins out :
+    cache_correct (linsolve_h solve solveT outer_neg ins out) None
+                  (linsolve_good solve) (linsolve_f solve) (linsolve_g solveT outer_neg).
+  Proof.
+    split; [exact I|]. split.
+    - intros mu last xs _. simpl. rewrite solve_ignores_guess. split; reflexivity.
+    - intros mu xs ws G. simpl in G. subst mu. reflexivity.
+  Qed.
+End LinSolveProofs.
+
+Section OverhangProofs.
+  Context {K : Type} `{NK : Num K}.
+  Variable P : Type.
+  Variable params_of_dtype : P.
+  Variable sweep : P -> list K -> list K * list K.
+  Variable sweep_adj : P -> list K -> list K -> list K -> list K -> list K.
+
+  Theorem overhang_cache_correct r out :
+    cache_correct (overhang_h P params_of_dtype sweep sweep_adj r out) (None, [])
+                  (overhang_good P params_of_dtype sweep) (overhang_f P params_of_dtype sweep)
+                  (overhang_g P params_of_dtype sweep sweep_adj).
+  Proof.
+    split; [split; [left; reflexivity | exact I]|]. split.
+    - intros [mp sm] last xs [[E|E] _]; simpl in E; subst mp; simpl; (split; [split; [right; reflexivity | split; reflexivity] | reflexivity]).
+    - intros [mp sm] xs ws [_ [E1 E2]]. simpl in *. subst. reflexivity.
+  Qed.
+End OverhangProofs.
+
+Section SoEProofs.
+  Context {K : Type} `{NK : Num K}.
+  Variable n_of : list (list K) -> nat.
+  Variable complete : nat -> list nat * list nat.
+  Variable soe : list nat * list nat -> list (list K) -> list (list K).
+  Variable soe_adj : list nat * list nat -> list (list K) -> list (list K) -> list (list K) -> list (option (list K)).
+  Variable n : nat.
+  (* "a new matrix of the same structure": the size of the system does not change within a history *)
+  Hypothesis same_structure : forall xs, n_of xs = n.
+
+  Theorem soe_cache_correct ins outs :
+    cache_correct (soe_h n_of complete soe soe_adj ins outs) None
+                  (soe_good complete n) (soe_f complete soe n) (soe_g complete soe_adj n).
+  Proof.
+    split; [left; reflexivity|]. split.
+    - intros mu last xs [E|E]; subst mu; simpl; rewrite ?same_structure; (split; [right; reflexivity | reflexivity]).
+    - intros mu xs ws [E|E]; subst mu; simpl; rewrite ?same_structure; reflexivity.
+  Qed.
+End SoEProofs.
+
+(* ====================================================================================================
+   The executable test modules meet the hypotheses of the theorems (non-vacuity) *)
+Section ExecProofs.
+  Context {K : Type} `{NK : Num K}.
+  Hypothesis Kring : ring_theory nzero none_ nadd nmul nsub nopp (@eq K).
+  Add Ring Kr3 : Kring.
+
+  Lemma vscale_zero (row : vec K) : vscale nzero row = vzero (length row).
+  Proof.
+    induction row as [|x row IH]; [reflexivity|].
+    change (vscale nzero (x :: row)) with (nmul nzero x :: vscale nzero row). rewrite IH.
+    change (vzero (length (x :: row)) : vec K) with (nzero :: vzero (length row)). f_equal. ring.
+  Qed.
+
+  Lemma mtv_zero n (M : mat K) : rows_len n M -> forall r, mtv n M (vzero r) = vzero n.
+  Proof.
+    induction 1 as [|row M Hr _ IH]; intros r; [reflexivity|].
+    destruct r as [|r]; [reflexivity|].
+    change (mtv n (row :: M) (vzero (S r))) with (vadd (vscale nzero row) (mtv n M (vzero r))).
+    rewrite IH, vscale_zero, Hr. apply (vadd_zero_l Kring). apply length_vzero.
+  Qed.
+
+  Lemma add_nth_zero i : forall ds, add_nth i (vzero (nth i ds 0) : vec K) (map vzero ds) = map vzero ds.
+  Proof.
+    induction i as [|i IH]; intros [|d ds]; try reflexivity.
+    - simpl. f_equal. apply (vadd_zero_l Kring). apply length_vzero.
+    - simpl. f_equal. apply IH.
+  Qed.
+
+  Lemma fold_adj_zero (L : lin K) bl : Forall (blk_ok L) bl ->
+    fold_adj L (map vzero (l_odims L)) bl (map vzero (l_idims L)) = map vzero (l_idims L).
+  Proof.
+    induction 1 as [|b bl Hb _ IH]; [reflexivity|].
+    destruct Hb as [H1 [H2 [H3 H4]]].
+    change (fold_adj L (map vzero (l_odims L)) (b :: bl) (map vzero (l_idims L)))
+      with (fold_adj L (map vzero (l_odims L)) bl
+                     (add_nth (blk_i b) (mtv (nth (blk_i b) (l_idims L) 0) (blk_m b)
+                                             (nth (blk_o b) (map vzero (l_odims L)) [])) (map vzero (l_idims L)))).
+    replace (nth (blk_o b) (map vzero (l_odims L)) []) with (vzero (nth (blk_o b) (l_odims L) 0) : vec K).
+    - rewrite (mtv_zero _ _ H4), add_nth_zero. exact IH.
+    - symmetry. rewrite (nth_indep _ [] (vzero 0)) by (rewrite map_length; exact H1).
+      apply (map_nth vzero (l_odims L) 0).
+  Qed.
+
+  Lemma mask_zeros flags : forall ds, length flags = length ds ->
+    Forall2 (fun (d : option (vec K)) n => zeroish n d) (mask flags (map vzero ds)) ds.
+  Proof.
+    unfold mask. induction flags as [|f flags IH]; intros [|d ds] L; try discriminate; [constructor|].
+    simpl. constructor; [destruct f; [left | right]; reflexivity | apply IH; simpl in L; lia].
+  Qed.
+
+  Lemma lin_adj_zero (L : lin K) : lin_ok L = true ->
+    Forall2 (fun d n => zeroish n d) (lin_adj L (map vzero (l_odims L))) (l_idims L).
+  Proof.
+    intros Hok. destruct (lin_ok_blocks L Hok) as [Hlen Hbl].
+    unfold lin_adj, lin_adj_dense. fold (fold_adj L (map vzero (l_odims L)) (eff_blocks L) (map vzero (l_idims L))).
+    rewrite (fold_adj_zero L _ Hbl). apply mask_zeros. exact Hlen.
+  Qed.
+End ExecProofs.
+
+(* ====================================================================================================
+   integer instances: the test modules of tools/checks/C03.py meet the hypotheses *)
+Section ExecZ.
+  Variable dims : nat -> nat.
+  Local Open Scope Z_scope.
+
+  Lemma lin_resp_shapes ins outs (L : lin Z) : linmod_ok dims ins outs L = true ->
+    forall xs, map (@length Z) (lin_fwd L xs) = map dims outs.
+  Proof.
+    unfold linmod_ok. intros Hb xs.
+    apply andb_true_iff in Hb as [Hb Ho]. apply andb_true_iff in Hb as [Hb Hi]. apply andb_true_iff in Hb as [Hok Hr].
+    apply list_eqb_nat_eq in Ho. destruct (lin_ok_blocks L Hok) as [Hlen Hbl].
+    rewrite <- Ho. apply (fold_fwd_shapes L xs (eff_blocks L) Hbl). apply shapes_zeros.
+  Qed.
+
+  Lemma lin_sens_shapes ins outs (L : lin Z) : linmod_ok dims ins outs L = true ->
+    forall ws, oshapes (lin_adj L ws) (map (ref_dim dims) ins).
+  Proof.
+    unfold linmod_ok. intros Hb ws.
+    apply andb_true_iff in Hb as [Hb Ho]. apply andb_true_iff in Hb as [Hb Hi]. apply andb_true_iff in Hb as [Hok Hr].
+    apply list_eqb_nat_eq in Hi. destruct (lin_ok_blocks L Hok) as [Hlen Hbl].
+    rewrite <- Hi. apply oshapes_mask; [exact Hlen|].
+    apply (fold_adj_shapes L ws (eff_blocks L) Hbl). apply shapes_zeros.
+  Qed.
+
+  Lemma lin_sens_zero ins outs (L : lin Z) : linmod_ok dims ins outs L = true ->
+    Forall2 (fun d n => zeroish n d) (lin_adj L (map (fun o => vzero (dims o)) outs)) (map (ref_dim dims) ins).
+  Proof.
+    unfold linmod_ok. intros Hb.
+    apply andb_true_iff in Hb as [Hb Ho]. apply andb_true_iff in Hb as [Hb Hi]. apply andb_true_iff in Hb as [Hok Hr].
+    apply list_eqb_nat_eq in Hi, Ho. rewrite <- Hi.
+    replace (map (fun o => vzero (dims o)) outs) with (map (@vzero Z _) (l_odims L)) by (rewrite Ho, map_map; reflexivity).
+    apply (lin_adj_zero Zring_theory). exact Hok.
+  Qed.
+
+  Lemma linmod_ok_refs ins outs (L : lin Z) : linmod_ok dims ins outs L = true -> forallb (wt_ref dims) ins = true.
+  Proof.
+    unfold linmod_ok. intros Hb.
+    apply andb_true_iff in Hb as [Hb Ho]. apply andb_true_iff in Hb as [Hb Hi]. apply andb_true_iff in Hb as [Hok Hr].
+    exact Hr.
+  Qed.
+
+  Theorem lin_h_shaped ins outs (L : lin Z) : linmod_ok dims ins outs L = true -> h_shaped dims (lin_h ins outs L).
+  Proof.
+    intros Hok. split; [apply (linmod_ok_refs ins outs L Hok)|]. split; [|split].
+    - intros mu xs _. apply (lin_resp_shapes ins outs L Hok).
+    - intros mu xs ys ws _ _. apply (lin_sens_shapes ins outs L Hok).
+    - intros mu xs ys _. apply (lin_sens_zero ins outs L Hok).
+  Qed.
+
+  Theorem lin_h_memless ins outs (L : lin Z) : h_memless (lin_h ins outs L).
+  Proof. exists (lin_fwd L), (fun _ _ ws => lin_adj L ws). split; reflexivity. Qed.
+
+  (* the user module with a cache is cache-correct; its memoryless counterpart is a block-matrix module *)
+  Definition cached_spec (L : lin Z) : cspec zmem :=
+    {| c_mu0 := None; c_good := cached_good L; c_f := lin_fwd L; c_g := fun _ _ ws => lin_adj L ws |}.
+
+  Lemma Zll_eqb_eq (a b : list (list Z)) : Zll_eqb a b = true -> a = b.
+  Proof.
+    apply list_eqb_spec. intros x y. apply list_eqb_spec. intros u v. apply Z.eqb_eq.
+  Qed.
+
+  Theorem cached_h_cache_correct ins outs (L : lin Z) : cc (cached_h ins outs L) (cached_spec L).
+  Proof.
+    split; [exact I|]. split.
+    - intros mu last xs G. simpl in *. destruct mu as [[xs0 ys0]|].
+      + destruct (Zll_eqb xs0 xs) eqn:E; simpl.
+        * apply Zll_eqb_eq in E. subst xs0. split; [exact G | exact G].
+        * split; reflexivity.
+      + simpl. split; reflexivity.
+    - intros mu xs ws _. reflexivity.
+  Qed.
+
+  Theorem pure_lin_shaped (h : hmod zmem) (L : lin Z) : linmod_ok dims (h_ins h) (h_outs h) L = true ->
+    h_shaped dims (pure_of h (lin_fwd L) (fun _ _ ws => lin_adj L ws)).
+  Proof.
+    intros Hok. split; [apply (linmod_ok_refs _ _ L Hok)|]. split; [|split].
+    - intros mu xs _. apply (lin_resp_shapes _ _ L Hok).
+    - intros mu xs ys ws _ _. apply (lin_sens_shapes _ _ L Hok).
+    - intros mu xs ys _. apply (lin_sens_zero _ _ L Hok).
+  Qed.
+
+  (* elementwise square and product *)
+  Lemma shapes1 (xs : list (list Z)) n : shapes xs [n] -> exists x, xs = [x] /\ length x = n.
+  Proof.
+    unfold shapes. destruct xs as [|x [|y xs]]; simpl; intros [=]. exists x. auto.
+  Qed.
+  Lemma shapes2 (xs : list (list Z)) n m : shapes xs [n; m] -> exists x y, xs = [x; y] /\ length x = n /\ length y = m.
+  Proof.
+    unfold shapes. destruct xs as [|x [|y [|z xs]]]; simpl; intros [=]. exists x, y. auto.
+  Qed.
+
+  Lemma map_combine_zero (f : Z * Z -> Z) : (forall a, f (a, 0) = 0) -> forall (x : list Z) n, length x = n ->
+    map f (combine x (vzero n)) = vzero n.
+  Proof.
+    intros Hf. induction x as [|a x IH]; intros [|n] E; try discriminate; [reflexivity|].
+    change (vzero (S n) : list Z) with (0 :: vzero n). simpl. rewrite Hf, IH by (simpl in E; lia). reflexivity.
+  Qed.
+
+  Theorem sq_h_shaped r out : wt_ref dims r = true -> ref_dim dims r = dims out -> h_shaped dims (sq_h r out).
+  Proof.
+    intros Hr Hd. split; [simpl; rewrite Hr; reflexivity|]. split; [|split].
+    - intros mu xs Hxs. destruct (shapes1 _ _ Hxs) as [x [-> Hl]]. simpl. rewrite map_length, Hl, Hd. reflexivity.
+    - intros mu xs ys ws Hxs Hws. destruct (shapes1 _ _ Hxs) as [x [-> Hl]]. destruct (shapes1 _ _ Hws) as [w [-> Hw]].
+      simpl. constructor; [|constructor]. intros g [= <-]. rewrite map_length, combine_length, Hl, Hw, Hd. apply Nat.min_id.
+    - intros mu xs ys Hxs. destruct (shapes1 _ _ Hxs) as [x [-> Hl]]. simpl.
+      constructor; [|constructor]. right. f_equal. rewrite <- Hd.
+      apply map_combine_zero; [intros a; simpl; lia | exact Hl].
+  Qed.
+
+  Theorem mul_h_shaped r1 r2 out : wt_ref dims r1 = true -> wt_ref dims r2 = true ->
+    ref_dim dims r1 = dims out -> ref_dim dims r2 = dims out -> h_shaped dims (mul_h r1 r2 out).
+  Proof.
+    intros Hr1 Hr2 Hd1 Hd2. split; [simpl; rewrite Hr1, Hr2; reflexivity|]. split; [|split].
+    - intros mu xs Hxs. destruct (shapes2 _ _ _ Hxs) as [x [y [-> [Hx Hy]]]]. simpl.
+      rewrite map_length, combine_length, Hx, Hy, Hd1, Hd2, Nat.min_id. reflexivity.
+    - intros mu xs ys ws Hxs Hws. destruct (shapes2 _ _ _ Hxs) as [x [y [-> [Hx Hy]]]].
+      destruct (shapes1 _ _ Hws) as [w [-> Hw]]. simpl.
+      constructor; [|constructor; [|constructor]]; intros g [= <-]; rewrite map_length, combine_length, ?Hx, ?Hy, Hw, ?Hd1, ?Hd2;
+        apply Nat.min_id.
+    - intros mu xs ys Hxs. destruct (shapes2 _ _ _ Hxs) as [x [y [-> [Hx Hy]]]]. simpl.
+      constructor; [|constructor; [|constructor]]; right; f_equal.
+      + rewrite Hd1. apply map_combine_zero; [intros a; simpl; lia | rewrite Hy; exact Hd2].
+      + rewrite Hd2. apply map_combine_zero; [intros a; simpl; lia | rewrite Hx; exact Hd1].
+  Qed.
+
+  Theorem sq_h_memless r out : h_memless (sq_h r out).
+  Proof.
+    exists (fun xs => [map (fun a => a * a) (nth 0 xs [])]),
+           (fun xs (_ : list (list Z)) ws => [Some (map (fun p => 2 * fst p * snd p) (combine (nth 0 xs []) (nth 0 ws [])))]).
+    split; reflexivity.
+  Qed.
+  Theorem mul_h_memless r1 r2 out : h_memless (mul_h r1 r2 out).
+  Proof.
+    exists (fun xs => [map (fun p => fst p * snd p) (combine (nth 0 xs []) (nth 1 xs []))]),
+           (fun xs (_ : list (list Z)) ws =>
+              [Some (map (fun p => fst p * snd p) (combine (nth 1 xs []) (nth 0 ws [])));
+               Some (map (fun p => fst p * snd p) (combine (nth 0 xs []) (nth 0 ws [])))]).
+    split; reflexivity.
+  Qed.
+End ExecZ.
+
+(* a memoryless module is trivially cache-correct *)
+Lemma memless_cc {K : Type} {M : Type} (h : @hmod K M) f g mu0 :
+  memoryless h f g -> cc h {| c_mu0 := mu0; c_good := fun _ _ => True; c_f := f; c_g := g |}.
+Proof.
+  intros [Hr Hs]. split; [exact I|]. split.
+  - intros mu last xs _. simpl. rewrite Hr. split; [exact I | reflexivity].
+  - intros mu xs ws _. simpl. rewrite Hs. reflexivity.
+Qed.
+
+(* ---- the example of Props/C03.v meets every hypothesis of the history theorem *)
+Lemma ex_shaped : Forall (h_shaped (dims_of ex_dims)) ex_mods.
+Proof.
+  apply Forall_cons; [|apply Forall_cons; [|apply Forall_cons; [|apply Forall_nil]]].
+  - apply lin_h_shaped. vm_compute. reflexivity.
+  - apply sq_h_shaped; reflexivity.
+  - apply lin_h_shaped. vm_compute. reflexivity.
+Qed.
+
+Lemma ex_memless : Forall h_memless ex_mods.
+Proof.
+  apply Forall_cons; [apply lin_h_memless|apply Forall_cons; [apply sq_h_memless|apply Forall_cons; [apply lin_h_memless|apply Forall_nil]]].
+Qed.
+
+Lemma ex_admissible :
+  admissible_run (keep_of ex_keep) ex_mods (ex_hist ++ [OReset] ++ ex_sets) (start ex_dims ex_keep ex_mods ex_inputs).
+Proof.
+  cbn [ex_hist ex_sets app admissible_run admissible].
+  repeat split; try (vm_compute; reflexivity); try (vm_compute; intuition discriminate).
+Qed.
+
+Lemma ex_facts :
+  hwf ex_mods = true /\ Forall (h_shaped (dims_of ex_dims)) ex_mods /\ Forall h_memless ex_mods /\
+  admissible_run (keep_of ex_keep) ex_mods (ex_hist ++ [OReset] ++ ex_sets) (start ex_dims ex_keep ex_mods ex_inputs) /\
+  only_sets ex_sets /\ seeds_shaped (dims_of ex_dims) ex_seeds /\
+  observe 5 (run (keep_of ex_keep) ex_mods (ex_hist ++ [OReset] ++ ex_sets ++ fresh_cycle ex_seeds)
+                 (start ex_dims ex_keep ex_mods ex_inputs))
+  = ([[0; 1; 2]; [1; 1]; [4; -2]; [16; 4]; [15]]%Z,
+     [Some [16; 0; 24]; Some [4; 2]; Some [16; 8]; Some [2; -2]; Some [2]]%Z).
+Proof.
+  split; [vm_compute; reflexivity|]. split; [exact ex_shaped|]. split; [exact ex_memless|].
+  split; [exact ex_admissible|]. split; [repeat constructor; eexists _, _; reflexivity|].
+  split; [repeat constructor|]. vm_compute. reflexivity.
+Qed.
